@@ -286,7 +286,13 @@ class Reader:
             raise IOError("Reader not open; call `open` before `read`")
         if hasattr(self, 'raw_channel_order'):
             csel = self.raw_channel_order[csel]
-        darray = self._raw[nsel, :].astype(np.float32, copy=True)[..., csel]
+        if self.is_mtscomp and isinstance(nsel, slice) and nsel.step is not None and nsel.step < 0:
+            # mtscomp only reads forward slices: read the covered range forward, then apply the negative step
+            ind = range(*nsel.indices(self.ns))
+            raw = self._raw[ind[-1]:ind[0] + 1, :][::nsel.step] if len(ind) else self._raw[0:0, :]
+        else:
+            raw = self._raw[nsel, :]
+        darray = raw.astype(np.float32, copy=True)[..., csel]
         darray *= self.channel_conversion_sample2v[self.type][csel]
         if sync:
             return darray, self.read_sync(nsel)
